@@ -179,7 +179,7 @@ pub fn run(tier: Tier) -> i32 {
     let run = Arc::new(Run::new("C09", tier, COUNTERS));
     // (a) siblings
     let mut bases: Vec<RefPos> = roots().into_iter().map(|r| r.pos).collect();
-    let ep = EpFamily { extra: Extra::None };
+    let ep = EpFamily { extra: Extra::None, pre_push: false };
     let stride = tier.pick(997u64, 97u64);
     bases.extend((0..ep.size()).step_by(stride as usize).filter_map(|i| ep.get(i)));
     for f in three_man_families() {
